@@ -73,7 +73,7 @@ Definition spec_snippet (s : sstate) (sn : snip) : sstate * obs :=
   | SnTryCatch => (s, sobs ["7"] OOk [])
   | SnFiberOk => (s, sobs ["5"] OOk [])
   | SnCaptureOk => (s_def GLeak (VClosure false 42) s, sobs [] OOk [])
-  | SnRange k => (s, sobs (map show_nat (seq 0 k)) OOk [])
+  | SnRange k => (s, sobs (map show_nat (seq 0 (depth_nat k))) OOk [])
   | SnUseLeak =>
       match s_globals s GLeak with
       | Some (VClosure _ z) => (s, sobs [show_Z z] OOk [])
@@ -144,11 +144,58 @@ Definition show_known (o : option known_class) : string :=
   | Some KOpenUpvalue => "open_upvalue_after_failed_run"
   end.
 
-(* ---------- entry points for the tie (tools/props/C15.py) ---------- *)
-Definition show_spec (o : obs) : string := show_obs o ++ ";loads=" ++ show_loads (o_loads o).
+(* ---------- entry points for the tie (tools/props/C15.py) ----------
+   Compact output (printing long strings is what costs time in coqc): messages are printed as an index into
+   msg_table (printed once by the plug-in), the H5 record as 12 numbers. *)
+Definition msg_table : list string :=
+  (map (fun g => name_error (gname_s g)) [0; 1] ++ map (fun f => name_error (fname_s f)) [0; 1] ++
+   map (fun c => name_error (cname_s c)) [0; 1] ++ [name_error "c"] ++ map (fun m => name_error (mod_alias m)) all_mods ++
+   map exc_msg [1; 2; 3; 4; 7; 9]%Z ++ map circular_msg all_mods ++ map missing_msg all_mods ++
+   [modcompile_msg; superclass_msg; attr_msg; syntax_msg; "Expected ClassDef."])%list.
+Definition show_msg_table : string := show_sep "," hex_of_string msg_table.
 
-(* render | spec | mech | known class, for one history given in wire format *)
+Fixpoint index_of (s : string) (l : list string) (i : nat) : option nat :=
+  match l with
+  | [] => None
+  | x :: r => if String.eqb s x then Some i else index_of s r (S i)
+  end.
+Definition msg_code (m : string) : string :=
+  match index_of m msg_table 0 with Some i => "#" ++ show_nat i | None => hex_of_string m end.
+
+Definition c_outcome (o : outcome) : string :=
+  match o with
+  | OOk => "ok"
+  | OErr k msg => "err:" ++ kind_s k ++ ":" ++ msg_code msg
+  | OPanic msg => "panic:" ++ msg_code msg
+  | OCrash => "crash"
+  | ODiverged why => "diverged:" ++ hex_of_string why
+  | OReset => "reset"
+  end.
+Definition c_obs (o : obs) : string :=
+  "out=" ++ show_sep "," hex_of_string (o_out o) ++ ";res=" ++ c_outcome (o_res o) ++ ";loads=" ++ show_loads (o_loads o).
+Definition c_h5 (core : nat) (c : carried) : string :=
+  let f := active c in
+  show_sep " " (fun x => x)
+    [show_b01 (c_he c); show_b01 (match c_fibers c with [] => false | _ => true end); show_nat (fb_frames f);
+     show_nat (fb_stack f); show_nat (List.length (fb_handlers f)); show_b01 (fb_retpend f); show_b01 (fb_errip f);
+     show_b01 (c_classdef c); show_nat (S (count_mods (c_mods c))); show_nat (core + c_chunks c); show_nat core;
+     show_nat (List.length (c_ranges c))].
+Definition c_known (o : option known_class) : string :=
+  match o with None => "-" | Some KFailedImport => "I" | Some KOpenUpvalue => "U" end.
+
+Fixpoint c_rows (core : nat) (ss : list obs) (ms : list (obs * carried)) (ks : list (option known_class)) : list string :=
+  match ss, ms, ks with
+  | s :: ss', (o, c) :: ms', k :: ks' =>
+      let so := c_obs s in
+      let mo := c_obs o in
+      (so ++ "~" ++ (if String.eqb so mo then "=" else mo) ++ "~" ++ c_h5 core c ++ "~" ++ c_known k) :: c_rows core ss' ms' ks'
+  | _, _, _ => []
+  end.
+
+(* one row per snippet: spec ~ mech (or =) ~ H5 numbers ~ known class *)
 Definition run_case (core : nat) (wire : string) : string :=
   let h := history_of_wire wire in
-  render_history h ++ "|" ++ show_sep "#" show_spec (eval_spec h) ++ "|" ++
-  show_sep "#" (show_mech core) (eval_mech h) ++ "|" ++ show_sep "#" show_known (known_classes h).
+  show_sep "|" (fun x => x) (c_rows core (eval_spec h) (eval_mech h) (known_classes h)).
+
+(* the source text of one snippet (the plug-in renders every distinct snippet once) *)
+Definition render_wire (wire : string) : string := render_history (history_of_wire wire).
